@@ -27,6 +27,18 @@ fn main() {
                     std::process::exit(1);
                 }
             }
+            // the three feature builds of the in-process derive harness
+            for (sc, nw) in [(true, true), (true, false), (false, true), (false, false)] {
+                subjects::build_harness(&ctx, sc, nw);
+            }
+            // dependencies of the slot crates (serde, serde_json, ts-rs)
+            let pkgs: Vec<String> = (0..subjects::NSLOTS).map(|s| format!("slot{s:02}")).collect();
+            let refs: Vec<&str> = pkgs.iter().map(|s| s.as_str()).collect();
+            let (ok, _o, e) = subjects::cargo_build(&ctx, &refs, &[]);
+            if !ok {
+                eprintln!("{e}");
+                std::process::exit(1);
+            }
             println!("setup ok");
         }
         Some("check") => {
